@@ -13,7 +13,7 @@ from rules import libtab
 
 
 class DocmdHooks(QHooks):
-    tracked = frozenset(['G:messid', 'G:flagabort', 'G:delnum', 'G:auto_spawn', 'G:auto_uidq', 'G:d'])
+    tracked = frozenset(['G:messid', 'G:flagabort', 'G:delnum', 'G:auto_spawn', 'G:auto_uidq', 'G:d', 'G:recip'])
     precise = frozenset(['L:i'])
     AUTO = 3          # configured concurrency limit in the explored geometry
     QUID = 7          # uid of qmailq in the explored geometry
@@ -178,7 +178,10 @@ def docmd_explore(db, rep):
     total_states = 0
     for n in LENS:
         eng = Engine(db, prog, H, max_states=300000)
-        eng.run(docmd, {'G:messid.len': fs(n)})
+        # the recipient is a fixed short address (a scan over it, however it is written, ends)
+        st0 = {'G:messid.len': fs(n), 'G:recip.len': fs(4), 'G:recip.s': fs(('&', 'G:recip.s[0]'))}
+        st0.update(libtab.conc_string_cells('G:recip.s', b'a@b'))
+        eng.run(docmd, st0)
         total_states += eng.states
         rep.count_states(eng.states, eng.transitions)
     if H.opens == 0 or H.returns == 0:
